@@ -5,6 +5,7 @@
       `M ok <orig|-> <n> <w1 … wn> | <offs:len …> | <breakpoints …>`   (words / breakpoints hex4)
       `M diag <kind> <offs> <len>`                                        (`- -` for span-less errors)
       `M panic`
+  `A19 <stack> <reset 0/1> <n> <src₁> … <srcₙ>` → `M <answer₁> ## … ## <answerₙ>`.
   The symbol table is empty at the start of every `A01` request (the harness calls
   `lace::reset_state()` before each case).
 -/
@@ -34,6 +35,17 @@ def handleA01 (toks : List String) : String :=
     match parseHex so, parseText src with
     | some so, some src => "M " ++ showOutcome (assemble (so != 0) [] src).1
     | _, _ => "bad-request"
+  | _ => "bad-request"
+
+/-- `A19 stack reset n src₁ … srcₙ`: the sources assembled one after the other on one thread,
+with (`reset = 1`) or without `reset_state()` before each; answers joined by ` ## `. -/
+def handleA19 (toks : List String) : String :=
+  match toks with
+  | so :: rs :: _n :: srcs =>
+    match parseHex so, parseHex rs, srcs.mapM parseText with
+    | some so, some rs, some srcs =>
+      "M " ++ " ## ".intercalate ((runSeq (so != 0) (rs != 0) [] srcs).map showOutcome)
+    | _, _, _ => "bad-request"
   | _ => "bad-request"
 
 end Lace.Driver
